@@ -50,6 +50,11 @@ static trl_which_t classify_standard(const vnacal_new_measurement_t *vnmp,
     *unknown_index = -1;
     vnprp_one = _vnacal_get_parameter(vcp, VNACAL_ONE);
     assert(vnprp_one != NULL);
+    for (int i = 0; i < 4; ++i) {
+	if (s[i] == NULL) {	/* cell not specified by this standard */
+	    return TRL_NONE;
+	}
+    }
     if (s[1]->vnpr_parameter == vnprp_one) {
 	if (s[2]->vnpr_parameter == vnprp_one &&
 		s[0] == vnp->vn_zero && s[3] == vnp->vn_zero) {
